@@ -335,6 +335,13 @@ def decision_margins(view, ep, k):
     for term in (scn.get('load') or {}).get('terms', []):
         if term['t'] == 'step':
             m('load-step', t[k] - term['t0'], tscale, 0.0)
+        elif term['t'] == 'coulomb' and wN[k] != 0:
+            # F*sign(speed): the sign of a speed that is zero up to rounding
+            # (for instance a rest state assigned by the user, advanced by a
+            # residual acceleration of 1e-14)
+            m('load-coulomb-sign', wN[k],
+              max(max(abs(x) for x in wN[:n]), abs(aN[k - 1] * dt)
+                  if k else 0.0), 0.0)
     pwm = view.series(ep, 0, 'pwm')
     dlim = rm.motor_dlim(view.mot)
     if dlim and pwm and k < len(pwm) and pwm[k] is not None:
